@@ -22,6 +22,7 @@ props! {
     c02 => "C02",
     c03 => "C03",
     c04 => "C04",
+    c06 => "C06",
     c07 => "C07",
     c08 => "C08",
     c31 => "C31",
